@@ -6,6 +6,7 @@ the *current* tree."""
 from hircanon import canon_fn, mirror, swap_lr, show, first_diff, fam_erase
 from rules.layer import has_user_code
 import gef as G
+from ssa import strip
 
 RULE = 'TWIN'
 PROPS = ['C02']
@@ -176,7 +177,45 @@ def props_of(prog, f, c09):
     from rules.live import mutates
     writes = mutates(prog, f) or f.self_adt not in prog.tree_adts or serves_writer(prog, f)
     out = (list(PROPS) if writes else []) + (['C09'] if f.path in c09 else []) + (['C10'] if f.self_adt in prog.tree_adts else [])
+    # which entries a tree holds and where they are found is decided by the links, the payloads, the root and the pool - never by a
+    # colour or by which rotation is chosen (a rotation keeps the in-order sequence).  A copy that deviates in a function that
+    # writes those directly (the removal, the rotations, the child-link helpers, the linking inserts) puts the family's content
+    # property in question as well; a deviation in a function that only recolours and picks rotations does not
+    if f.self_adt in prog.tree_adts and writes_content(prog, f):
+        out += CONTENT_PROPS.get(f.family, [])
     return out or list(PROPS)
+
+
+CONTENT_PROPS = {'map': ['C04'], 'set': ['C05'], 'key': ['C01', 'C06']}
+
+
+def writes_content(prog, f):
+    """does f itself store into a link field, a payload, the root, or call the pool?"""
+    key = ('writescontent', f.path)
+    if key in prog._summ_cache:
+        return prog._summ_cache[key]
+    res = False
+    b = f.body
+    for st in b.stores:
+        fl = st.fields()
+        if prog.accessor_call(strip(st.root)) is not None and fl and fl[0] in ('left', 'right', 'parent', 'entity', 'value'):
+            res = True
+        if strip(st.root).kind == 'param' and fl and fl[0] == 'root':
+            res = True
+    if not res:
+        from rules.pool import pool_roles, tree_pool
+        try:
+            pool, _ = tree_pool(prog, f.self_adt)
+            r = pool_roles(prog).get(pool) or {}
+            pf = {g.path for g in (r.get('alloc') or []) + (r.get('release') or [])}
+            for c in b.calls:
+                tgt = prog.resolve(c)
+                if tgt is not None and tgt.path in pf:
+                    res = True
+        except Exception:
+            pass
+    prog._summ_cache[key] = res
+    return res
 
 
 def permuted_equal(form, ref, nparams):
